@@ -754,8 +754,10 @@ pub fn run_acct(ctx: &mut Ctx) {
                     let fr = sentinel_frames(kind, src, &mut r);
                     flow_frames.push(fr.len());
                     lane.extend(fr);
-                    if kind == Kind::Http && r.chance(1, 10) {
-                        // a non-TCP frame: the HTTP worker reports a processing error for it
+                    if kind != Kind::Tls && r.chance(1, 10) {
+                        // a non-TCP frame: queued, and the worker's analysis returns an error for it. No pool
+                        // counts that as a drop (regression of KF.C18.httpWorkerErrCountedDropped, repaired by
+                        // fixes/C18-http-worker-error-not-a-drop.patch; the TLS hasher refuses such frames)
                         let mut g = Seg::new((src, 1), (net::v4(1), 2), ACK);
                         g.payload = vec![1, 2, 3];
                         let mut f = net::eth_bytes(&g);
@@ -779,7 +781,7 @@ pub fn run_acct(ctx: &mut Ctx) {
                 let mut k = 0;
                 while k < lane.len() {
                     let f = &lane[k];
-                    let is_nontcp = kind == Kind::Http && f.len() > 23 && f[23] == 17;
+                    let is_nontcp = kind != Kind::Tls && f.len() > 23 && f[23] == 17;
                     if is_nontcp {
                         meta.push((2, u32::MAX));
                         k += 1;
